@@ -17,6 +17,7 @@ def run(tier="quick"):
     chk = Check("C13", level="other", tier=tier,
                 explanation="CAP over the bounded / in-place helpers with their calling conventions as entry contracts")
     chk.rule("B1", "every access of the helper stays inside the buffers its contract gives it (and the destination is terminated inside)")
+    chk.rule("W1", "no narrow integer state wraps with the length of the input")
     configs = [None]
     if tier == "thorough":
         configs.append({"HAVE_STRNLEN": None, "HAVE_MEMMEM": None, "HAVE_STRCASESTR": None})
@@ -41,6 +42,48 @@ def run(tier="quick"):
             chk.note("undecided: " + " | ".join(samples))
         chk.count("undecided_obligations", nund)
     chk.count("helpers_analysed", nf, floor=7)
+    # W1 state kept in a narrow integer does not wrap with the length of the input: a local of 8 or 16 bits that a loop over the
+    # string steps (x++, x += k) without that loop's condition - or a test guarding the step - bounding it returns to 0 after 256
+    # (65536) steps; used as a flag ("have I just written a blank?") it then flips in the middle of a long run
+    from ..facts import walk
+    prog = facts.extract(only=["strings.c"])
+    nw = 0
+    for nm in FUNCS:
+        f = prog.fn(nm)
+        if f is None or f.body is None:
+            continue
+        for lp in walk(f.body):
+            if lp.get("k") not in ("for", "while", "do"):
+                continue
+            cond_refs = {y["d"] for y in walk(lp.get("cond") or {}) if y.get("k") == "ref"}
+            for x in walk(lp.get("body") or {}):
+                t = None
+                if x.get("k") == "un" and x.get("op") in ("++", "--"):
+                    t = X.strip(x["ch"][0])
+                elif x.get("k") == "assign" and x.get("op") in ("+=", "-="):
+                    t = X.strip(x["ch"][0])
+                if t is None or t.get("k") != "ref" or t.get("rk") not in ("local", "param") or t.get("tp") or (t.get("tw") or 64) > 16:
+                    continue
+                # innermost loop only
+                inner = [z for z in walk(lp.get("body") or {}) if z.get("k") in ("for", "while", "do") and any(y is x for y in walk(z))]
+                if inner:
+                    continue
+                nw += 1
+                guarded = t["d"] in cond_refs
+                for anc in f.ancestors(x):
+                    if anc is lp:
+                        break
+                    if anc.get("k") == "if" and any(y.get("k") == "bin" and y.get("op") in ("<", "<=", ">", ">=", "!=") and
+                                                    any(z.get("k") == "ref" and z.get("d") == t["d"] for z in walk(y))
+                                                    for y in walk(anc["cond"])) and not any(y is x for y in walk(anc["cond"])):
+                        guarded = True
+                chk.ob("W1", f.name, "narrow-step:" + (t.get("n") or "?"), guarded, loc=f.loc(x),
+                       detail="%s steps the %d-bit local `%s` once per input character without bounding it: after %d steps it is 0 again, so "
+                              "what it stands for (a flag, a count) is wrong for a long enough run of the input" % (
+                                  f.name, t.get("tw"), t.get("n"), 1 << t.get("tw")),
+                       proof="bounded by the loop condition or a guarding comparison")
+    if not nw:
+        chk.ob("W1", "*", "narrow-step", True, loc="src/strings.c", proof="no 8/16-bit local is stepped inside a loop of the helpers")
     chk.analysed = {"units": ["strings.c"], "functions": FUNCS}
     chk.assume("calling conventions: dest holds `size` bytes; source arguments are NUL-terminated strings; lengths fit their integer types")
     return chk.finish()
